@@ -409,8 +409,17 @@ def first_label(t):
 class Gen:
     MASK_LETTERS = "atdeuywr0123456789"
 
-    def __init__(self, rng, size=14, maxdepth=4):
+    def __init__(self, rng, size=14, maxdepth=4, profile="uniform"):
+        """profile "uniform": every production anywhere, operands anywhere (the original family).
+        profile "driver": the same productions with the weights of a coroutine *protocol* workload — the tree's root and
+        every fiber mostly create children and then DRIVE them (a run of 1-4 resume / cancel / next / each on the fiber
+        just created, operands biased to the most recent local fiber), nested bodies mostly suspend (yield-heavy, user
+        signals from a two-digit palette per tree), masks are drawn bit by bit (y / e / palette digits independently,
+        so `:e` and the bit of the signal actually raised differ often), catch / cleanup forms are as long as bodies.
+        Everything a driver tree contains the uniform family can also produce; only the probabilities differ."""
         self.rng = rng
+        self.profile = profile
+        self.palette = [rng.below(10), rng.below(10)] if profile == "driver" else None
         self.label = 0
         self.tok = 100
         self.size = size
@@ -432,8 +441,23 @@ class Gen:
             return "v%d" % r.choice(vis)
         return "n"
 
-    def flags(self):
+    def flags(self, depth=1):
         r = self.rng
+        if self.profile == "driver" and depth == 0 and r.chance(1, 2):
+            return "a" + ("i" if r.chance(1, 8) else "p" if r.chance(1, 8) else "")     # the root's own workers mostly trap everything
+        if self.profile == "driver" and not r.chance(1, 5):
+            s = ""
+            if r.chance(3, 5):
+                s += "y"
+            if r.chance(1, 2):
+                s += "e"
+            for d in self.palette:
+                if r.chance(2, 5):
+                    s += str(d)
+            if r.chance(1, 10):
+                s += r.choice("tdu")
+            e = r.below(8)
+            return s + ("i" if e == 0 else "p" if e == 1 else "")
         c = r.below(10)
         if c == 0:
             s = ""
@@ -460,6 +484,11 @@ class Gen:
 
     def fibatom(self, fibs):
         r = self.rng
+        if self.profile == "driver" and fibs:
+            if r.chance(1, 2):
+                return "v%d" % fibs[-1]
+            if r.chance(9, 10):
+                return "v%d" % r.choice(fibs)
         if fibs and r.chance(3, 4):
             return "v%d" % r.choice(fibs)
         return "g%d" % r.below(self.nfib + 2)
@@ -485,13 +514,50 @@ class Gen:
             t = ('P', self.lab(), ('pure', "v%d" % (n + i)), t)
         return ('P', l, ('pure', "i%d" % self.tok), t)
 
+    def small(self, k):
+        """budget of a catch clause / cleanup form: 0..k-1, in the driver profile 0..k+1"""
+        return self.rng.below(k + 2 if self.profile == "driver" else k)
+
+    def drive(self, n, target, cnt, vis, fibs, depth, budget, ccall, first=True, kind=None):
+        """`cnt` consecutive steps (slots n, n+1, …) that target the fiber in atom `target`: resume / cancel / next; every
+        step but the first is, two times out of three, guarded by a status test the way a driver loop is written
+        (`(if (= (fiber/status f) :pending) (resume f x))` resp. `(if (= (fiber/status f) :dead) nil (resume f x))`);
+        then ordinary code"""
+        r = self.rng
+        if cnt <= 0 or n > 40:
+            return self.seq(n, vis, fibs, depth, budget, ccall)
+
+        def op(vs):
+            c = r.below(20) if kind is None else {"resume": 0, "cancel": 13, "next": 18}[kind]
+            k = "resume" if c < 13 else "cancel" if c < 18 else "next"
+            if kind is None:
+                self.count(k)
+            return (k, target, self.val(vs)) if k != "next" else (k, target)
+        if not first and (depth == 0 or r.chance(2, 3)):
+            l, l2, l3 = self.lab(), self.lab(), self.lab()
+            self.count("ite")
+            v1 = vis + [n]
+            act = ('P', l3, op(v1), ('R', "v%d" % (n + 1)))
+            skip = ('R', "n")
+            if depth == 0 and r.chance(1, 2):
+                ite = act
+                for st in ("user4", "user3", "user2", "user1", "user0", "error", "dead"):      # = (if (fiber/can-resume? f) …)
+                    ite = ('I', "v%d" % n, "k" + st, skip, ite)
+            elif depth == 0:
+                ite = ('I', "v%d" % n, "kpending", act, skip)
+            else:
+                ite = ('I', "v%d" % n, "kpending", act, skip) if r.chance(1, 2) else ('I', "v%d" % n, "kdead", skip, act)
+            return ('P', l, ('status', target), ('B', l2, ite, self.drive(n + 2, target, cnt - 1, v1 + [n + 1], fibs, depth, budget, ccall, False)))
+        l = self.lab()
+        return ('P', l, op(vis), self.drive(n + 1, target, cnt - 1, vis + [n], fibs, depth, budget, ccall, False))
+
     def lit(self):
         self.tok += 1
         return "i%d" % self.tok
 
     def seq(self, n, vis, fibs, depth, budget, ccall=False):
         r = self.rng
-        if budget <= 0:
+        if budget <= 0 or n > 40:       # (janet closures can only capture the first 256 registers of a function; ~4 per slot)
             return ('R', self.val(vis))
         deep = depth >= self.maxdepth
         choices = [("yield", 10), ("signal", 6), ("debug", 2), ("error", 3), ("pure", 3), ("resume", 14), ("cancel", 5), ("next", 3), ("last", 2),
@@ -501,6 +567,23 @@ class Gen:
             choices += [("new", 12), ("defer", 5), ("edefer", 3), ("try", 4), ("protect", 2), ("with", 3), ("prompt", 3), ("gen", 3),
                         ("coro", 3), ("dyns", 3), ("block", 2), ("ccall", 3), ("each", 4)]
         choices.append(("return", 2))
+        if self.profile == "driver":
+            if depth == 0:       # the tree's root: creates workers and drives them, hardly ever suspends itself
+                choices = [("pure", 1), ("setdyn", 1), ("dyn", 1)]
+                if fibs:
+                    choices += [("drive", 10), ("last", 1), ("status", 1), ("ite", 1)]
+                if not deep:
+                    choices += [("worker", 10), ("defer", 1), ("try", 1), ("protect", 2), ("gen", 1), ("coro", 2), ("ccall", 1)]
+                    if fibs:
+                        choices.append(("each", 3))
+            else:
+                choices = [("yield", 16), ("signal", 6), ("debug", 1), ("error", 2), ("pure", 2), ("resume", 12), ("cancel", 6), ("next", 3),
+                           ("last", 1), ("status", 1), ("setdyn", 2), ("dyn", 2), ("ite", 2), ("propagate", 2), ("return", 1)]
+                if not deep:
+                    choices += [("new", 10), ("defer", 4), ("edefer", 2), ("try", 5), ("protect", 3), ("with", 1), ("prompt", 2), ("gen", 2),
+                                ("coro", 3), ("dyns", 1), ("block", 1), ("ccall", 4), ("each", 4)]
+            if not fibs and depth > 0:         # nothing local to drive yet: instructions that need a fiber operand are rare
+                choices = [(k, 1 if k in ("resume", "cancel", "next", "last", "status", "ite", "propagate", "each") else w) for k, w in choices]
         tot = sum(w for _, w in choices)
         x = r.below(tot)
         for kind, w in choices:
@@ -518,6 +601,8 @@ class Gen:
         if kind == "yield":
             return ('P', l, ('yield', self.val(vis)), rest())
         if kind == "signal":
+            if self.profile == "driver" and r.chance(3, 4):
+                return ('P', l, ('signal', r.choice(self.palette), self.val(vis)), rest())
             return ('P', l, ('signal', r.below(10), self.val(vis)), rest())
         if kind == "error":
             return ('P', l, ('error', self.val(vis)), rest())
@@ -525,6 +610,21 @@ class Gen:
             return ('P', l, ('debug', self.val(vis)), rest())
         if kind == "pure":
             return ('P', l, ('pure', self.val(vis)), rest())
+        if kind == "drive":
+            self.label -= 1
+            return self.drive(n, "v%d" % (fibs[-1] if r.chance(1, 2) else r.choice(fibs)), r.range(1, 3), vis, fibs, depth, budget - 1, ccall, first=False)
+        if kind == "worker":
+            self.nfib += 1
+            sig = "none"
+            if r.chance(1, 3):
+                sig = r.choice([k for k in SIGS if k not in ("none", "req2")])
+            b = self.body(n, vis, fibs, depth + 1, max(2, budget - 1)) if sig == "none" else self.pbody(n, sig, vis, fibs, depth + 1, max(2, budget - 1))
+            fl_ = ("a" + ("i" if r.chance(1, 8) else "p" if r.chance(1, 8) else "")) if r.chance(2, 3) else self.flags()
+            k = self.drive(n + 1, "v%d" % n, r.range(2, 5), v1, fibs + [n], depth, budget - 1, ccall)
+            return ('N', l, fl_, b, k) if sig == "none" else ('Np', l, sig, fl_, b, k)
+        if self.profile == "driver" and kind in ("resume", "cancel", "next") and fibs:
+            self.label -= 1        # `l` is not used: drive() draws its own labels
+            return self.drive(n, self.fibatom(fibs), 1, vis, fibs, depth, budget - 1, ccall, first=r.chance(1, 3), kind=kind)
         if kind == "resume":
             return ('P', l, ('resume', self.fibatom(fibs), self.val(vis)), rest())
         if kind == "cancel":
@@ -554,22 +654,24 @@ class Gen:
             if r.chance(1, 2):
                 sig = r.choice([k for k in SIGS if k not in ("none", "req2")]) if not r.chance(1, 25) else "req2"
             b = self.body(n, vis, fibs, depth + 1, sub) if sig == "none" else self.pbody(n, sig, vis, fibs, depth + 1, sub)
-            if r.chance(2, 3):
+            if self.profile == "driver" and r.chance(5, 6):
+                k = self.drive(n + 1, "v%d" % n, r.range(1, 4), v1, fibs + [n], depth, budget - 1, ccall)
+            elif r.chance(2, 3):
                 l2 = self.lab()
                 k = ('P', l2, ('resume', "v%d" % n, self.val(v1)), self.seq(n + 2, v1 + [n + 1], fibs + [n], depth, budget - 1, ccall))
             else:
                 k = rest(True)
-            return ('N', l, self.flags(), b, k) if sig == "none" else ('Np', l, sig, self.flags(), b, k)
+            return ('N', l, self.flags(depth), b, k) if sig == "none" else ('Np', l, sig, self.flags(depth), b, k)
         if kind in ("defer", "edefer"):
             self.nfib += 1
             off = 2 if kind == "defer" else 3
-            form = self.body(n + off, vis, fibs, depth + 1, r.below(3), ccall)
+            form = self.body(n + off, vis, fibs, depth + 1, self.small(3), ccall)
             b = self.body(n, vis, fibs, depth + 1, sub)
             return ('M' + kind, n, l, form, b, rest())
         if kind == "try":
             self.nfib += 1
             b = self.body(n, vis, fibs, depth + 1, sub)
-            c = self.body(n + 4, vis + [n + 3], fibs, depth + 1, r.below(3), ccall)
+            c = self.body(n + 4, vis + [n + 3], fibs, depth + 1, self.small(3), ccall)
             return ('Mtry', n, l, b, c, rest())
         if kind == "protect":
             self.nfib += 1
@@ -604,7 +706,8 @@ class Gen:
         if kind == "ccall":
             return ('C', l, self.body(n, vis, fibs, depth + 1, sub, True), rest())
         if kind == "each":
-            return ('E', l, self.fibatom(fibs), self.body(n + 1, v1, fibs, depth + 1, r.below(3), ccall, "v%d" % n), rest())
+            eb = 0 if (self.profile == "driver" and depth == 0) else r.below(3)
+            return ('E', l, self.fibatom(fibs), self.body(n + 1, v1, fibs, depth + 1, eb, ccall, "v%d" % n), rest())
         raise ValueError(kind)
 
     def tree(self):
